@@ -1,6 +1,8 @@
 package props
 
 import (
+	"time"
+	"context"
 	"runtime"
 	"encoding/json"
 	"fmt"
@@ -216,6 +218,8 @@ func c06Compile(s string) string {
 	return "OK " + m.PrintMachine()
 }
 
+var c06ReadTwice int64
+
 func c06Exec(o c06Op, concurrent bool) string {
 	switch o.kind {
 	case 0:
@@ -234,7 +238,31 @@ func c06Exec(o c06Op, concurrent bool) string {
 			}
 			atomic.AddInt64(&cm.uses, 1)
 		}
-		out := xpmock.Run(cm.m, t)
+		// one run in three is given a Go context of its own that is cancelled once the result is in the caller's hands
+		// (the usual "defer cancel()"): the result is read before and after that, and is the same
+		var out xpmock.Outcome
+		if (o.failAt+o.nonce+o.table+o.mach+o.kind)%3 == 0 {
+			gctx, cancel := context.WithCancel(context.Background())
+			read := xpmock.RunKeep(gctx, cm.m, t)
+			out = read()
+			cancel()
+			for i := 0; i < 4; i++ {
+				runtime.Gosched()
+			}
+			if i := (o.failAt + o.nonce) % 4; i == 0 {
+				time.Sleep(20 * time.Microsecond) // (lets whatever the cancellation started get its turn)
+			}
+			again := read()
+			atomic.AddInt64(&c06ReadTwice, 1)
+			if fmt.Sprintf("%+v", again) != fmt.Sprintf("%+v", out) {
+				if concurrent {
+					atomic.AddInt32(&cm.inflight, -1)
+				}
+				return fmt.Sprintf("RESULT-CHANGED-AFTER-ITS-RUN first read: %+v; read again after the caller cancelled its Go context: %+v", out, again)
+			}
+		} else {
+			out = xpmock.Run(cm.m, t)
+		}
 		if concurrent {
 			atomic.AddInt32(&cm.inflight, -1)
 		}
@@ -285,6 +313,9 @@ func (p *c06) Run(tier string, seed int64, idx int) core.CaseResult {
 			a := c06Exec(o, false)
 			b := c06Exec(o, false)
 			res.Ev("sequential_operations", 2)
+			if strings.HasPrefix(a, "RESULT-CHANGED") || strings.HasPrefix(b, "RESULT-CHANGED") {
+				res.Fail("C06/result-changes-after-it-was-returned/sequential", jsonStr(map[string]interface{}{"op": c06Describe(o)}), a+"\n"+b)
+			}
 			if a != b {
 				res.Fail("C06/sequential-rerun-differs", jsonStr(map[string]interface{}{"op": c06Describe(o)}), "first: "+a+"\nsecond: "+b)
 			}
@@ -373,6 +404,7 @@ func (p *c06) Run(tier string, seed int64, idx int) core.CaseResult {
 		res.Ev("machine_listings_compared", 1)
 	}
 	res.Ev("rounds", 1)
+	res.Ev("results_read_again_after_the_go_context_was_cancelled", atomic.SwapInt64(&c06ReadTwice, 0))
 	overlap := int32(0)
 	for _, mi := range hot {
 		if m := atomic.LoadInt32(&c06Machines[mi].maxSeen); m > overlap {
@@ -402,6 +434,10 @@ func (p *c06) Run(tier string, seed int64, idx int) core.CaseResult {
 				res.Ev("faulted_concurrent_runs", 1)
 			}
 			res.Key(o.key() + "=>" + got[g][k])
+			if strings.HasPrefix(got[g][k], "RESULT-CHANGED") {
+				res.Fail("C06/result-changes-after-it-was-returned/concurrent", jsonStr(map[string]interface{}{"round": idx, "goroutine": g, "op": c06Describe(o)}), core.Trunc(got[g][k], 1500))
+				continue
+			}
 			if got[g][k] != expected[o.key()] {
 				res.Fail("C06/concurrent-result-differs-from-isolated/"+[]string{"compile", "run", "faulted-run"}[o.kind],
 					jsonStr(map[string]interface{}{"round": idx, "goroutine": g, "op": c06Describe(o)}),
